@@ -22,6 +22,8 @@ class VariableBoundBoundsMaxPropagator(VariableBoundMaxPropagator):
         other.add_propagator(self)
         
     def max(self):
+        if len(self.other.domain.range_l) == 0:
+            return None
 #        print("max: " + str(self.other.domain.range_l[-1][1]+self.offset))
         return (self.other.domain.range_l[-1][1]+self.offset)
     
